@@ -145,7 +145,7 @@ def check_reports(run, cnt, fi=False):
 def case_reports(cs):
     ins.install()
     ins.reset()
-    spec = w2.gen(cs, nested_p=0.5)
+    spec = w2.gen(cs, nested_p=0.5, peek=0.35)
     run = w2.run(spec)
     sig = w2.signature(spec)
     sample = w2.sample_of(spec)
